@@ -104,6 +104,13 @@ def g_tsptw(r, big):
     n = r.randint(2, 5 if not big else 6)
     pts = [(r.randint(0, 9), r.randint(0, 9)) for _ in range(n)]
     d = [[abs(a[0] - b[0]) + abs(a[1] - b[1]) for b in pts] for a in pts]     # Manhattan: metric
+    if r.random() < 0.6:
+        # asymmetric but metric: shortest-path closure of a random asymmetric matrix (one-way streets)
+        d = [[0 if i == j else r.randint(1, 25) for j in range(n)] for i in range(n)]
+        for k in range(n):
+            for i in range(n):
+                for j in range(n):
+                    d[i][j] = min(d[i][j], d[i][k] + d[k][j])
     tw = [[0, 400]]
     for i in range(1, n):
         e = r.randint(0, 30)
